@@ -238,6 +238,8 @@ type c02hReq struct {
 	Tok    string `json:"token_name"`
 	Bearer bool   `json:"bearer,omitempty"`
 	Body   string `json:"body,omitempty"`
+	// Wire: the path as sent when it differs from Path (percent-encoded dots, which the server decodes)
+	Wire string `json:"path_on_the_wire,omitempty"`
 }
 
 type c02hVerdict struct {
@@ -650,8 +652,20 @@ func c02hTopology(t *testing.T, r *kit.Result, rng *kit.Rand, caseID string, nre
 		if q.Method == "GET" && rng.Chance(1, 8) {
 			q.Query = "list=true"
 		}
+		pct := false
 		if rng.Chance(1, 6) {
-			switch rng.Intn(6) {
+			switch rng.Intn(10) {
+			case 6: // an ordinary dot-prefixed segment followed by '..'
+				full = strings.Replace(full, "/data/", "/.c02/../data/", 1)
+			case 7:
+				full = strings.TrimSuffix(full, "/") + "/.c02/x/../.."
+			case 8: // the same with the dots percent-encoded on the wire
+				full = strings.Replace(full, "/data/", "/.c02/../data/", 1)
+				pct = true
+			case 9: // a segment that merely starts with a dot is an ordinary segment
+				if strings.Contains(full, "/data/") && !strings.HasSuffix(full, "/") {
+					full += "/.c02"
+				}
 			case 0:
 				full = strings.Replace(full, "/", "//", 1)
 			case 1:
@@ -677,6 +691,9 @@ func c02hTopology(t *testing.T, r *kit.Result, rng *kit.Rand, caseID string, nre
 		}
 		h := kit.Pick(rng, heads)
 		q.Path, q.NSHdr = full[len(h):], h
+		if pct && strings.Contains(q.Path, "/../") {
+			q.Wire = strings.Replace(q.Path, "/../", "/%2e%2e/", 1)
+		}
 		if h != "" && rng.Chance(1, 5) {
 			q.NSHdr = strings.TrimSuffix(h, "/")
 		}
@@ -700,6 +717,10 @@ func (x *c02hRun) one(q *c02hReq, tok *c02hTok) bool {
 	r := x.r
 	vd := x.w.judge(q, tok)
 	url := x.addr + "/v1/" + q.Path
+	if q.Wire != "" {
+		url = x.addr + "/v1/" + q.Wire
+		r.Count("percent_encoded_dot_segments_sent", 1)
+	}
 	if q.Query != "" {
 		url += "?" + q.Query
 	}
